@@ -5,6 +5,13 @@
 //! (exact f32 bit patterns) to the Lean slab checker, which decides for EVERY generic point of
 //! the plane whether coverage agrees with the fill rule outside the tolerance band.
 //! The in-harness oracle checks termination/no panic, index validity and finiteness.
+//!
+//! Families `sweep:32` / `sweepc:32`: the sweep-line tessellator itself against its Lean model
+//! (`Model/Tess/Sweep.lean`, `Model/Tess/SweepCurves.lean`): the COMPLETE emission sequence of the
+//! real `FillTessellator` (every vertex with all its sibling edge records, interpolated
+//! attributes, every triangle, ok / err / panic) on polygonal resp. curved input, compared bit for
+//! bit.  Case ids: `chk_fill` first, then `sweep` (random + stress), `sweepc` (curved), and the
+//! directed `sweep` inputs (`gen_sweep_directed`) last, so that earlier families keep their ids.
 
 use lyon_path::math::Point;
 use lyon_path::Polygon;
@@ -13,6 +20,9 @@ use lyon_tessellation::{
 };
 use vh::fillgen::*;
 use vh::{CaseOut, Ctx, Oracle, Out};
+
+#[path = "../data/c01_lyon_tests.rs"]
+mod lyon_tests;
 
 fn fill_case(ctx: &mut Ctx, max_edges: usize) {
     ctx.case_check("chk_fill", |rng| {
@@ -249,10 +259,242 @@ fn gen_sweep_stress(rng: &mut vh::Rng) -> Poly {
     }
 }
 
-fn sweep_case(ctx: &mut Ctx, max_edges: usize) {
+/// Inputs constructed to reach the branches of the sweep that the random streams do not reach
+/// (measured with the model's `sweepcov` instrumentation): error recovery while a merge vertex is
+/// pending, an intersection that rounds onto the current position, errors that survive the
+/// recovery.  Returns the polygon, an optional tolerance, and the share (in eighths) of cases run
+/// with `handle_intersections = false`.
+fn gen_sweep_directed(rng: &mut vh::Rng) -> (Poly, Option<f32>, u64) {
+    use lyon_path::math::point;
+    let j = |rng: &mut vh::Rng, a: f64| rng.uniform(-a, a) as f32;
+    match rng.below(8) {
+        7 => {
+            // not finite: one coordinate NaN or infinite (outside the property; the modelled outcome is
+            // `Err(UnsupportedParamater(PositionIsNaN))` after the vertices before it, or a sweep over infinities)
+            let mut p = gen_poly(rng, 8);
+            let bad = *rng.pick(&[f32::NAN, f32::NAN, f32::INFINITY, f32::NEG_INFINITY]);
+            let n: usize = p.subs.iter().map(|s| s.0.len()).sum();
+            if n > 0 {
+                let mut k = rng.below(n as u64) as usize;
+                for s in &mut p.subs {
+                    if k < s.0.len() {
+                        if rng.chance(1, 2) {
+                            s.0[k].x = bad;
+                        } else {
+                            s.0[k].y = bad;
+                        }
+                        break;
+                    }
+                    k -= s.0.len();
+                }
+            }
+            p.kind = "nonfinite";
+            (p, None, 1)
+        }
+        6 => {
+            // finite but huge coordinates: differences and products overflow f32 inside the sweep
+            let s = *rng.pick(&[1.0e19f64, 1.0e30, 1.0e37, 1.5e38, 3.0e38]);
+            let k = rng.range(1, 3) as usize;
+            let mut subs = Vec::new();
+            for _ in 0..k {
+                let n = rng.range(3, 6) as usize;
+                subs.push(((0..n).map(|_| point(rng.uniform(-s, s) as f32, rng.uniform(-s, s) as f32)).collect(), true));
+            }
+            (Poly { subs, kind: "huge" }, None, 1)
+        }
+        0 => {
+            // a notch (merge vertex) whose enclosing walls are crossed, below the merge vertex and
+            // before it is resolved, by another sub-path: with handle_intersections off the sort of
+            // the recovery leaves the merge vertex outside and it has to be moved back
+            let h1 = rng.uniform(0.5, 2.0) as f32;
+            let hh = rng.uniform(4.0, 8.0) as f32;
+            let notch = vec![point(0.0, 0.0), point(1.0 + j(rng, 0.3), h1), point(2.0, j(rng, 0.3)), point(2.0 + j(rng, 0.5), hh), point(j(rng, 0.5), hh + j(rng, 0.5))];
+            let y0 = rng.uniform(-1.0, (h1 + 1.0) as f64) as f32;
+            let zx = rng.uniform(0.2, 1.8) as f32;
+            let zy = rng.uniform(h1 as f64 + 0.3, hh as f64 - 0.3) as f32;
+            let mut z = vec![point(-3.0, y0), point(-1.0, y0 + j(rng, 0.5)), point(zx, zy)];
+            if rng.chance(1, 2) {
+                z.push(point(-3.0 + j(rng, 1.0), zy + rng.uniform(0.2, 2.0) as f32));
+            }
+            if rng.chance(1, 2) {
+                z.reverse();
+            }
+            let mut p = Poly { subs: if rng.chance(1, 2) { vec![(notch, true), (z, true)] } else { vec![(z, true), (notch, true)] }, kind: "merge-cross" };
+            if rng.chance(1, 2) {
+                p.transform(|q| point(2.0 - q.x, q.y));
+            }
+            (p, None, 6)
+        }
+        1 => {
+            // a notch whose walls cross each other below the merge vertex (bow-tie)
+            let h1 = rng.uniform(0.3, 1.5) as f32;
+            let hh = rng.uniform(3.0, 8.0) as f32;
+            let xr = rng.uniform(-3.0, 1.0) as f32;
+            let xl = xr + rng.uniform(0.5, 4.0) as f32;
+            let mut pts = vec![point(0.0, 0.0), point(1.0 + j(rng, 0.3), h1), point(2.0, j(rng, 0.2)), point(xr, hh), point(xl, hh + j(rng, 1.0))];
+            if rng.chance(1, 3) {
+                // a second notch next to the first
+                pts.insert(3, point(3.0, h1 + j(rng, 0.5)));
+                pts.insert(4, point(4.0, j(rng, 0.2)));
+            }
+            let mut subs = vec![(pts, true)];
+            if rng.chance(1, 2) {
+                subs.push((vec![point(j(rng, 4.0), j(rng, 4.0) + 3.0), point(j(rng, 4.0), j(rng, 4.0) + 3.0), point(j(rng, 4.0), j(rng, 4.0) + 3.0)], true));
+            }
+            (Poly { subs, kind: "merge-bowtie" }, None, 6)
+        }
+        2 => {
+            // an intersection that rounds onto the current position: a nearly level active edge passes
+            // less than half an ulp below the current vertex, several ulps away at the vertex' own
+            // ordinate, and the edge leaving the vertex runs into it
+            let m = *rng.pick(&[1.0e3f64, 1.0e4, 1.0e5, 1.0e6]);
+            let cx = (m * rng.uniform(0.5, 1.0)) as f32;
+            let cy = (m * rng.uniform(0.5, 1.0)) as f32;
+            let ux = (cx as f64) * (f32::EPSILON as f64);
+            let uy = (cy as f64) * (f32::EPSILON as f64);
+            let dx = rng.uniform(-0.5, 0.5) * ux;
+            let dy = rng.uniform(0.0, 0.5) * uy;
+            // the active edge: through I = cur + (dx, dy), slope `sl` (|sl| small)
+            let sl = rng.uniform(0.002, 0.06) * if rng.chance(1, 2) { 1.0 } else { -1.0 };
+            let (ix, iy) = (cx as f64 + dx, cy as f64 + dy);
+            let la = rng.uniform(1.0, 50.0) * m * 1.0e-3;
+            let lb = rng.uniform(1.0, 50.0) * m * 1.0e-3;
+            // upper end has the smaller ordinate
+            let (a, b) = if sl > 0.0 {
+                (point((ix - la) as f32, (iy - la * sl) as f32), point((ix + lb) as f32, (iy + lb * sl) as f32))
+            } else {
+                (point((ix + la) as f32, (iy + la * sl) as f32), point((ix - lb) as f32, (iy - lb * sl) as f32))
+            };
+            // the edge leaving the current vertex through I and beyond
+            let k = rng.uniform(10.0, 1000.0) * m * 1.0e-3 / (dx * dx + dy * dy).sqrt().max(1.0e-30);
+            let c = point((cx as f64 + dx * k) as f32, (cy as f64 + dy * k).max(cy as f64) as f32);
+            let cur = point(cx, cy);
+            let third = point(cx + j(rng, 1.0) * (m as f32) * 0.01, cy - rng.uniform(0.001, 0.02) as f32 * m as f32);
+            let q = point(a.x + j(rng, 1.0) * (m as f32) * 0.01, a.y - rng.uniform(0.001, 0.02) as f32 * m as f32);
+            let t1 = vec![cur, c, third];
+            let t2 = vec![a, b, q];
+            let subs = if rng.chance(1, 2) { vec![(t1, true), (t2, true)] } else { vec![(t2, true), (t1, true)] };
+            (Poly { subs, kind: "touch-at-current" }, Some(0.001), 0)
+        }
+        3 => {
+            // chaos with intersections ignored: overlapping slivers and triangles on a tiny lattice with
+            // ulp-sized jitter (broken sweep states: errors that survive the recovery, spans left over)
+            let k = rng.range(3, 6) as usize;
+            let mut subs = Vec::new();
+            let jit = *rng.pick(&[0.0f64, 1.0e-6, 1.0e-3, 0.2]);
+            for _ in 0..k {
+                let n = rng.range(3, 5) as usize;
+                subs.push(((0..n).map(|_| point(rng.range(0, 5) as f32 + j(rng, jit), rng.range(0, 5) as f32 + j(rng, jit))).collect(), true));
+            }
+            (Poly { subs, kind: "chaos" }, None, 7)
+        }
+        4 => {
+            // several notches (a comb) with teeth of nearly equal depth, crossed by thin slivers
+            let teeth = rng.range(2, 5) as usize;
+            let depth = rng.uniform(1.0, 4.0) as f32;
+            let mut pts = vec![point(-1.0, -1.0)];
+            for i in 0..teeth {
+                let x = i as f32 * 2.0;
+                pts.push(point(x, depth + j(rng, 1.0e-3) * *rng.pick(&[0.0f32, 1.0, 1000.0])));
+                pts.push(point(x + 1.0, j(rng, 0.5)));
+            }
+            let w = teeth as f32 * 2.0;
+            pts.push(point(w, -1.0));
+            pts.push(point(w + j(rng, 1.0), depth + rng.uniform(1.0, 5.0) as f32));
+            pts.push(point(-1.0 + j(rng, 1.0), depth + rng.uniform(1.0, 5.0) as f32));
+            let mut subs = vec![(pts, true)];
+            for _ in 0..rng.range(1, 3) {
+                let y = depth + rng.uniform(-0.5, 3.0) as f32;
+                subs.push((vec![point(-2.0, y), point(w + 1.0, y + j(rng, 2.0)), point(w + 1.0, y + j(rng, 2.0) + 0.3)], true));
+            }
+            let mut p = Poly { subs, kind: "comb-slivers" };
+            if rng.chance(1, 2) {
+                p.transform(|q| point(q.x, -q.y));
+            }
+            (p, None, 5)
+        }
+        _ => {
+            // lyon's own regression inputs (polygonal ones), exactly or with their points nudged by an ulp
+            // (not `fuzzing_test_case_01`: its 108 points repeat many edges, and at one vertex 34 pending edges
+            // with TIED sort keys reach `sort_unstable_by`; the order ipnsort leaves ties in is not modelled —
+            // the model answers `unmodelled sort-gt20-inconsistent` there)
+            let polys: Vec<&(&str, &[(u8, [f32; 6])])> =
+                lyon_tests::LYON_TESTS.iter().filter(|t| t.1.len() <= 100 && t.1.iter().all(|c| c.0 != 2 && c.0 != 3)).collect();
+            let t = *rng.pick(&polys);
+            let nudge = rng.chance(1, 3);
+            let mut subs: Vec<(Vec<Point>, bool)> = Vec::new();
+            for c in t.1 {
+                match c.0 {
+                    0 | 1 => {
+                        let mut p = point(c.1[0], c.1[1]);
+                        if nudge && rng.chance(1, 4) {
+                            let nd = |v: f32, d: i64| -> f32 {
+                                let w = f32::from_bits((v.to_bits() as i64 + d) as u32);
+                                if v != 0.0 && w.is_finite() && (w - v).abs() <= v.abs() * 1.0e-6 {
+                                    w
+                                } else {
+                                    v
+                                }
+                            };
+                            p.x = nd(p.x, rng.range(-1, 1));
+                            p.y = nd(p.y, rng.range(-1, 1));
+                        }
+                        if c.0 == 0 {
+                            subs.push((vec![p], false));
+                        } else {
+                            subs.last_mut().unwrap().0.push(p);
+                        }
+                    }
+                    e => {
+                        subs.last_mut().unwrap().1 = e == 5;
+                    }
+                }
+            }
+            let mut p = Poly { subs, kind: "lyon-tests" };
+            match rng.below(6) {
+                0 => p.transform(|q| point(q.y, q.x)),
+                1 => p.transform(|q| point(-q.x, -q.y)),
+                2 => p.transform(|q| point(q.x * 0.5, q.y * 0.5)),
+                _ => {}
+            }
+            (p, if rng.chance(1, 2) { Some(0.05) } else { None }, 3)
+        }
+    }
+}
+
+/// does the real tessellator return (Ok or Err, no panic) within two seconds on this input?
+/// Used only to screen NON-FINITE inputs; a hung run is left behind in its thread.
+fn returns_in_time(poly: &Poly, cfg: &FillCfg, handle_ix: bool) -> bool {
+    if std::env::var("C01_NO_SCREEN").is_ok() {
+        return true; // development aid: show the unscreened stream
+    }
+    let (tx, rx) = std::sync::mpsc::channel();
+    let (poly, cfg) = (poly.clone(), *cfg);
+    std::thread::spawn(move || {
+        let r = vh::guarded(|| {
+            let mut tess = FillTessellator::new();
+            let mut log = SweepLog::default();
+            let _ = run_fill_log(&mut tess, &poly, &cfg, handle_ix, &mut log);
+        });
+        let _ = tx.send(r.is_some());
+    });
+    matches!(rx.recv_timeout(std::time::Duration::from_secs(2)), Ok(true))
+}
+
+fn sweep_case(ctx: &mut Ctx, max_edges: usize, directed: bool) {
     ctx.case("sweep:32", |rng| {
         let mut tol_override: Option<f32> = None;
-        let poly = if rng.chance(1, 3) {
+        let mut noix_num = 0u64;
+        let poly = if directed {
+            let (p, tol, noix) = gen_sweep_directed(rng);
+            tol_override = tol;
+            noix_num = noix;
+            if rng.chance(1, 64) {
+                // an invalid tolerance: `Err(UnsupportedParamater(ToleranceIsNaN))`, nothing emitted
+                tol_override = Some(*rng.pick(&[f32::NAN, 0.0, -0.5]));
+            }
+            p
+        } else if rng.chance(1, 3) {
             gen_sweep_stress(rng)
         } else if rng.chance(1, 8) {
             let n_mid = rng.range(3, 14) as usize;
@@ -271,9 +513,22 @@ fn sweep_case(ctx: &mut Ctx, max_edges: usize) {
             cfg.tolerance = t;
         }
         // one case in eight (one in three of the stress inputs) runs with `handle_intersections = false`
-        // (the error-recovery paths)
+        // (the error-recovery paths); the directed inputs choose their own share
         let stress = matches!(poly.kind, "near-level" | "big-coords" | "overlap-many" | "near-coincident" | "comb" | "small-lattice");
-        let handle_ix = if stress { !rng.chance(1, 3) } else { !rng.chance(1, 8) };
+        let handle_ix = if directed {
+            !rng.chance(noix_num, 8)
+        } else if stress {
+            !rng.chance(1, 3)
+        } else {
+            !rng.chance(1, 8)
+        };
+        let mut poly = poly;
+        if poly.kind == "nonfinite" && !returns_in_time(&poly, &cfg, handle_ix) {
+            // on a few NaN inputs the real code loops forever or panics inside the queue's sort (outside the
+            // property: the input is not finite); those are not part of the stream — the coordinate is zeroed
+            poly.transform(|q| lyon_path::math::point(if q.x.is_finite() { q.x } else { 0.0 }, if q.y.is_finite() { q.y } else { 0.0 }));
+            poly.kind = "nonfinite-screened";
+        }
         let mut args = Out::new();
         cfg.put(&mut args);
         args.b(handle_ix);
@@ -304,7 +559,9 @@ fn sweep_case(ctx: &mut Ctx, max_edges: usize) {
                     // With `handle_intersections = false` on an input that does intersect the caller broke
                     // the option's precondition: recorded, not a finding. Otherwise it is one.
                     o.t("panic");
-                    if handle_ix {
+                    if poly.kind == "nonfinite" {
+                        orc.skip("nonfinite-input");
+                    } else if handle_ix {
                         orc.check(false, "sweep/no-panic", "generic", || "FillTessellator panicked on finite polygonal input".into());
                     } else {
                         orc.skip("noix-precondition-violated");
@@ -345,6 +602,545 @@ fn sweep_case(ctx: &mut Ctx, max_edges: usize) {
     });
 }
 
+// ---------------------------------------------------------------------------------------------
+// Family `sweepc:32`: the same tie on CURVED input.  Paths with line / quadratic / cubic edges go
+// through the real `FillTessellator` (entry points `tessellate(path.iter())`, `tessellate_path`,
+// `tessellate_with_ids` without / with an attribute store, `builder()` /
+// `builder_with_attributes(n)` with `quadratic_bezier_to` / `cubic_bezier_to`); the Lean model
+// (`Model/Tess/SweepCurves.lean`) builds the event queue from the same commands — the curves are
+// flattened by the Flatten model inside the modelled `EventQueueBuilder`, including the
+// 'flattened from its end' swap — and runs the modelled sweep.  Compared: the complete emission
+// sequence (positions, sibling records with t-ranges / ids / windings, the interpolated
+// attributes of every vertex when there is an attribute store, triangles, outcome).
+
+#[derive(Clone, Debug)]
+enum CSeg {
+    Line(Point),
+    Quad(Point, Point),
+    Cubic(Point, Point, Point),
+}
+
+impl CSeg {
+    fn map(&self, f: &dyn Fn(Point) -> Point) -> CSeg {
+        match self {
+            CSeg::Line(p) => CSeg::Line(f(*p)),
+            CSeg::Quad(c, p) => CSeg::Quad(f(*c), f(*p)),
+            CSeg::Cubic(a, b, p) => CSeg::Cubic(f(*a), f(*b), f(*p)),
+        }
+    }
+    fn to(&self) -> Point {
+        match self {
+            CSeg::Line(p) | CSeg::Quad(_, p) | CSeg::Cubic(_, _, p) => *p,
+        }
+    }
+}
+
+#[derive(Clone, Debug)]
+struct CSub {
+    start: Point,
+    segs: Vec<CSeg>,
+    closed: bool,
+}
+
+#[derive(Clone, Debug)]
+struct CPath {
+    subs: Vec<CSub>,
+    kind: &'static str,
+}
+
+impl CPath {
+    fn transform(&mut self, f: &dyn Fn(Point) -> Point) {
+        for s in &mut self.subs {
+            s.start = f(s.start);
+            for g in &mut s.segs {
+                *g = g.map(f);
+            }
+        }
+    }
+    fn num_endpoints(&self) -> usize {
+        self.subs.iter().map(|s| 1 + s.segs.len()).sum()
+    }
+    fn num_curves(&self) -> usize {
+        self.subs.iter().map(|s| s.segs.iter().filter(|g| !matches!(g, CSeg::Line(_))).count()).sum()
+    }
+    fn reversed_sub(s: &CSub) -> CSub {
+        // the same outline walked the other way round
+        let mut pts = vec![s.start];
+        for g in &s.segs {
+            pts.push(g.to());
+        }
+        let mut segs = Vec::new();
+        for (i, g) in s.segs.iter().enumerate().rev() {
+            let to = pts[i];
+            segs.push(match g {
+                CSeg::Line(_) => CSeg::Line(to),
+                CSeg::Quad(c, _) => CSeg::Quad(*c, to),
+                CSeg::Cubic(a, b, _) => CSeg::Cubic(*b, *a, to),
+            });
+        }
+        CSub { start: *pts.last().unwrap(), segs, closed: s.closed }
+    }
+}
+
+fn cpt(rng: &mut vh::Rng, mode: u64, span: f64) -> Point {
+    use lyon_path::math::point;
+    match mode {
+        0 => point(rng.range(0, 8) as f32, rng.range(0, 8) as f32),
+        1 => point(rng.range(0, 32) as f32 * 0.25, rng.range(0, 32) as f32 * 0.25),
+        _ => point(rng.uniform(-span, span) as f32, rng.uniform(-span, span) as f32),
+    }
+}
+
+fn cseg(rng: &mut vh::Rng, mode: u64, span: f64, curve_bias: u64) -> CSeg {
+    match rng.below(2 + curve_bias) {
+        0 => CSeg::Line(cpt(rng, mode, span)),
+        k if k % 2 == 1 => CSeg::Quad(cpt(rng, mode, span), cpt(rng, mode, span)),
+        _ => CSeg::Cubic(cpt(rng, mode, span), cpt(rng, mode, span), cpt(rng, mode, span)),
+    }
+}
+
+/// Curved paths: blobs, lattice / random control polygons, shared curved edges walked in both
+/// directions, holes, loops, degenerate curves, several sub-paths, open and closed.
+fn gen_cpath(rng: &mut vh::Rng) -> CPath {
+    use lyon_path::math::point;
+    let kind = rng.below(12);
+    let mut path = match kind {
+        0 | 1 => {
+            // blob(s): control points on a wobbly circle, mixed edge types
+            let mut subs = Vec::new();
+            let m = rng.range(1, 3);
+            for _ in 0..m {
+                let c = point(rng.uniform(-3.0, 3.0) as f32, rng.uniform(-3.0, 3.0) as f32);
+                let r = rng.uniform(1.0, 6.0);
+                let n = rng.range(2, 5) as usize;
+                let ccw = rng.chance(1, 2);
+                let ph = rng.uniform(0.0, 6.283);
+                let mut k = 0.0f64;
+                let mut at = |rng: &mut vh::Rng, k: f64| {
+                    let a = ph + (if ccw { 1.0 } else { -1.0 }) * k * 6.283185307 / (3.0 * n as f64);
+                    let rr = r * rng.uniform(0.7, 1.3);
+                    point(c.x + (rr * a.cos()) as f32, c.y + (rr * a.sin()) as f32)
+                };
+                let start = at(rng, 0.0);
+                let mut segs = Vec::new();
+                for i in 0..n {
+                    let last = i + 1 == n;
+                    let end = if last && rng.chance(1, 2) { start } else { at(rng, k + 3.0) };
+                    segs.push(match rng.below(3) {
+                        0 => CSeg::Line(end),
+                        1 => CSeg::Quad(at(rng, k + 1.5), end),
+                        _ => CSeg::Cubic(at(rng, k + 1.0), at(rng, k + 2.0), end),
+                    });
+                    k += 3.0;
+                }
+                subs.push(CSub { start, segs, closed: rng.chance(3, 4) });
+            }
+            CPath { subs, kind: "blob" }
+        }
+        2 | 3 => {
+            // lattice control polygons (many exact coincidences: shared vertices, level edges)
+            let mode = rng.below(2);
+            let mut subs = Vec::new();
+            for _ in 0..rng.range(1, 3) {
+                let start = cpt(rng, mode, 0.0);
+                let segs = (0..rng.range(1, 4)).map(|_| cseg(rng, mode, 0.0, 3)).collect();
+                subs.push(CSub { start, segs, closed: rng.chance(3, 4) });
+            }
+            CPath { subs, kind: "lattice" }
+        }
+        4 => {
+            // random control polygons: loops, cusps, self-intersections
+            let span = *rng.pick(&[1.0f64, 10.0, 10.0, 100.0]);
+            let mut subs = Vec::new();
+            for _ in 0..rng.range(1, 3) {
+                let start = cpt(rng, 2, span);
+                let segs = (0..rng.range(1, 4)).map(|_| cseg(rng, 2, span, 4)).collect();
+                subs.push(CSub { start, segs, closed: rng.chance(3, 4) });
+            }
+            CPath { subs, kind: "random" }
+        }
+        5 | 6 => {
+            // a curved edge shared by two sub-paths, walked in opposite (or the same) directions:
+            // the 'flattened from its end' swap must make both flattenings coincide
+            let mode = rng.below(3);
+            let a = cpt(rng, mode, 8.0);
+            let e = cseg(rng, mode, 8.0, 6);
+            let b = e.to();
+            let s1 = CSub { start: a, segs: vec![e.clone(), CSeg::Line(cpt(rng, mode, 8.0))], closed: true };
+            let back = CPath::reversed_sub(&CSub { start: a, segs: vec![e.clone()], closed: false });
+            let mut s2 = if rng.chance(3, 4) {
+                CSub { start: b, segs: vec![back.segs[0].clone(), cseg(rng, mode, 8.0, 2)], closed: true }
+            } else {
+                CSub { start: a, segs: vec![e, cseg(rng, mode, 8.0, 2)], closed: true }
+            };
+            if rng.chance(1, 3) {
+                // start the second sub-path elsewhere so that the shared edge is not its first edge
+                let extra = cpt(rng, mode, 8.0);
+                let first = s2.start;
+                let mut segs = vec![CSeg::Line(first)];
+                segs.extend(s2.segs.drain(..));
+                s2 = CSub { start: extra, segs, closed: true };
+            }
+            let subs = if rng.chance(1, 2) { vec![s1, s2] } else { vec![s2, s1] };
+            CPath { subs, kind: "shared-curve" }
+        }
+        7 => {
+            // a shape with a curved hole (either orientation), optionally a bar across
+            let r = rng.uniform(3.0, 6.0) as f32;
+            let ring = |r: f32, ccw: bool, quad: bool| -> CSub {
+                let k = if quad { 1.0 } else { 0.5522848 };
+                let s = if ccw { 1.0 } else { -1.0 };
+                let p = |x: f32, y: f32| point(x * r, s * y * r);
+                let mut segs = Vec::new();
+                let q = [(1.0, 0.0), (0.0, 1.0), (-1.0, 0.0), (0.0, -1.0), (1.0, 0.0)];
+                for i in 0..4 {
+                    let (x0, y0) = q[i];
+                    let (x1, y1) = q[i + 1];
+                    if quad {
+                        segs.push(CSeg::Quad(p(x0 + x1, y0 + y1), p(x1, y1)));
+                    } else {
+                        segs.push(CSeg::Cubic(p(x0 + k * x1, y0 + k * y1), p(x1 + k * x0, y1 + k * y0), p(x1, y1)));
+                    }
+                }
+                CSub { start: p(1.0, 0.0), segs, closed: true }
+            };
+            let mut subs = vec![ring(r, rng.chance(1, 2), rng.chance(1, 2))];
+            let mut hole = ring(r * rng.uniform(0.2, 0.9) as f32, rng.chance(1, 2), rng.chance(1, 2));
+            let off = point(rng.uniform(-1.0, 1.0) as f32, rng.uniform(-1.0, 1.0) as f32);
+            hole.start = point(hole.start.x + off.x, hole.start.y + off.y);
+            hole.segs = hole.segs.iter().map(|g| g.map(&|q| point(q.x + off.x, q.y + off.y))).collect();
+            subs.push(hole);
+            if rng.chance(1, 3) {
+                let y = rng.uniform(-4.0, 4.0) as f32;
+                subs.push(CSub {
+                    start: point(-8.0, y),
+                    segs: vec![CSeg::Line(point(8.0, y + rng.uniform(-1.0, 1.0) as f32)), CSeg::Line(point(0.0, y + 2.0))],
+                    closed: true,
+                });
+            }
+            CPath { subs, kind: "rings" }
+        }
+        8 => {
+            // degenerate curves: coincident / collinear control points, zero-length, from == to loops
+            let mode = rng.below(2);
+            let mut subs = Vec::new();
+            for _ in 0..rng.range(1, 2) {
+                let start = cpt(rng, mode, 0.0);
+                let mut cur = start;
+                let mut segs = Vec::new();
+                for _ in 0..rng.range(2, 4) {
+                    let to = cpt(rng, mode, 0.0);
+                    let mid = point((cur.x + to.x) * 0.5, (cur.y + to.y) * 0.5);
+                    let g = match rng.below(9) {
+                        0 => CSeg::Quad(cur, to),
+                        1 => CSeg::Quad(to, to),
+                        2 => CSeg::Quad(mid, to),
+                        3 => CSeg::Quad(cpt(rng, mode, 0.0), cur),
+                        4 => CSeg::Cubic(cur, to, to),
+                        5 => CSeg::Cubic(cur, cur, cur),
+                        6 => CSeg::Cubic(mid, mid, to),
+                        7 => CSeg::Cubic(cpt(rng, mode, 0.0), cpt(rng, mode, 0.0), cur),
+                        _ => CSeg::Cubic(to, cur, to),
+                    };
+                    cur = g.to();
+                    segs.push(g);
+                }
+                subs.push(CSub { start, segs, closed: rng.chance(1, 2) });
+            }
+            CPath { subs, kind: "degenerate-curves" }
+        }
+        9 => {
+            // upward and downward monotone curves side by side (many curve-interior vertex events),
+            // plus tiny sub-paths: single points, begin/end only
+            let mut subs = Vec::new();
+            let n = rng.range(1, 3);
+            for i in 0..n {
+                let x = i as f32 * 3.0;
+                let h = rng.uniform(2.0, 8.0) as f32;
+                let w = rng.uniform(0.5, 3.0) as f32;
+                let bulge = rng.uniform(-4.0, 4.0) as f32;
+                let up = rng.chance(1, 2);
+                let (y0, y1) = if up { (h, 0.0) } else { (0.0, h) };
+                subs.push(CSub {
+                    start: point(x, y0),
+                    segs: vec![
+                        CSeg::Cubic(point(x + bulge, y0 + (y1 - y0) * 0.3), point(x - bulge, y0 + (y1 - y0) * 0.7), point(x, y1)),
+                        CSeg::Line(point(x + w, y1)),
+                        CSeg::Quad(point(x + w + bulge * 0.5, (y0 + y1) * 0.5), point(x + w, y0)),
+                    ],
+                    closed: rng.chance(1, 2),
+                });
+            }
+            if rng.chance(1, 2) {
+                subs.push(CSub { start: point(1.0, 1.0), segs: vec![], closed: rng.chance(1, 2) });
+            }
+            if rng.chance(1, 2) {
+                subs.push(CSub { start: point(2.0, 1.0), segs: vec![CSeg::Line(point(2.0, 1.0))], closed: true });
+            }
+            CPath { subs, kind: "monotone-curves" }
+        }
+        10 => {
+            // polygonal control: lines only, through the same command stream
+            let p = gen_poly(rng, 10);
+            let subs = p
+                .subs
+                .iter()
+                .filter(|(v, _)| !v.is_empty())
+                .map(|(v, c)| CSub { start: v[0], segs: v[1..].iter().map(|q| CSeg::Line(*q)).collect(), closed: *c })
+                .collect();
+            CPath { subs, kind: "polygonal" }
+        }
+        _ => {
+            // many overlapping curved sub-paths (crossings between flattened curves)
+            let mut subs = Vec::new();
+            for _ in 0..rng.range(2, 4) {
+                let start = cpt(rng, 2, 5.0);
+                let segs = (0..rng.range(2, 3)).map(|_| cseg(rng, 2, 5.0, 2)).collect();
+                subs.push(CSub { start, segs, closed: true });
+            }
+            CPath { subs, kind: "overlap-curves" }
+        }
+    };
+    match rng.below(14) {
+        0 => path.transform(&|q| point(q.x * 1000.0, q.y * 1000.0)),
+        1 => path.transform(&|q| point(q.x * 0.125, q.y * 0.125)),
+        2 => path.transform(&|q| point(q.x + 1000.0, q.y - 500.0)),
+        3 => path.transform(&|q| point(q.x * 0.37 + 0.11, q.y * 1.93 - 0.7)),
+        4 => path.transform(&|q| point(q.y, q.x)),
+        5 => path.transform(&|q| point(-q.x, -q.y)),
+        _ => {}
+    }
+    path
+}
+
+const CENTRY_NAMES: [&str; 5] = ["events", "path", "ids", "idsattr", "builder"];
+
+enum EmitC {
+    V(Point, Vec<VerifEdgeRecord>, Vec<f32>),
+    T(u32, u32, u32),
+}
+
+#[derive(Default)]
+struct SweepLogC {
+    ems: Vec<EmitC>,
+    nv: u32,
+}
+
+impl GeometryBuilder for SweepLogC {
+    fn add_triangle(&mut self, a: VertexId, b: VertexId, c: VertexId) {
+        self.ems.push(EmitC::T(a.0, b.0, c.0));
+    }
+}
+
+impl FillGeometryBuilder for SweepLogC {
+    fn add_fill_vertex(&mut self, mut v: FillVertex) -> Result<VertexId, GeometryBuilderError> {
+        let pos = v.position();
+        let recs = v.verif_sibling_records();
+        let attrs = v.interpolated_attributes().to_vec();
+        self.ems.push(EmitC::V(pos, recs, attrs));
+        self.nv += 1;
+        Ok(VertexId(self.nv - 1))
+    }
+}
+
+/// the entry points on a curved path; `attrs[k]` = attributes of the k-th endpoint in command order
+fn run_fill_curved(
+    tess: &mut FillTessellator,
+    path: &CPath,
+    attrs: &[Vec<f32>],
+    nattr: usize,
+    entry: usize,
+    opts: &lyon_tessellation::FillOptions,
+    log: &mut SweepLogC,
+) -> Result<(), String> {
+    let mut k = 0usize;
+    let r = if entry == 4 {
+        let mut b = tess.builder_with_attributes(nattr, opts, log);
+        if nattr == 0 && path.num_endpoints() % 2 == 0 {
+            // `builder()` is `NoAttributes::wrap` of the same `FillBuilder`
+            drop(b);
+            use lyon_path::builder::PathBuilder;
+            let mut b = tess.builder(opts, log);
+            for s in &path.subs {
+                b.begin(s.start);
+                for g in &s.segs {
+                    match g {
+                        CSeg::Line(p) => b.line_to(*p),
+                        CSeg::Quad(c, p) => b.quadratic_bezier_to(*c, *p),
+                        CSeg::Cubic(c1, c2, p) => b.cubic_bezier_to(*c1, *c2, *p),
+                    };
+                }
+                b.end(s.closed);
+            }
+            b.build()
+        } else {
+            for s in &path.subs {
+                b.begin(s.start, &attrs[k]);
+                k += 1;
+                for g in &s.segs {
+                    match g {
+                        CSeg::Line(p) => b.line_to(*p, &attrs[k]),
+                        CSeg::Quad(c, p) => b.quadratic_bezier_to(*c, *p, &attrs[k]),
+                        CSeg::Cubic(c1, c2, p) => b.cubic_bezier_to(*c1, *c2, *p, &attrs[k]),
+                    };
+                    k += 1;
+                }
+                b.end(s.closed);
+            }
+            b.build()
+        }
+    } else {
+        let mut b = lyon_path::Path::builder_with_attributes(nattr);
+        for s in &path.subs {
+            b.begin(s.start, &attrs[k]);
+            k += 1;
+            for g in &s.segs {
+                match g {
+                    CSeg::Line(p) => b.line_to(*p, &attrs[k]),
+                    CSeg::Quad(c, p) => b.quadratic_bezier_to(*c, *p, &attrs[k]),
+                    CSeg::Cubic(c1, c2, p) => b.cubic_bezier_to(*c1, *c2, *p, &attrs[k]),
+                };
+                k += 1;
+            }
+            b.end(s.closed);
+        }
+        let p = b.build();
+        match entry {
+            0 => tess.tessellate(p.iter(), opts, log),
+            1 => tess.tessellate_path(&p, opts, log),
+            2 => tess.tessellate_with_ids(p.id_iter(), &p, None, opts, log),
+            _ => tess.tessellate_with_ids(p.id_iter(), &p, Some(&p), opts, log),
+        }
+    };
+    r.map_err(|e| format!("{:?}", e))
+}
+
+fn sweepc_case(ctx: &mut Ctx) {
+    ctx.case("sweepc:32", |rng| {
+        let path = gen_cpath(rng);
+        let cfg = FillCfg::gen(rng);
+        let entry = rng.below(5) as usize;
+        let nattr = if rng.chance(1, 3) { 0 } else { rng.range(1, 3) as usize };
+        let handle_ix = !rng.chance(1, 8);
+        // tolerance relative to the size of the path (0.001 .. 1 for an extent of about 10)
+        let scale = path
+            .subs
+            .iter()
+            .flat_map(|s| std::iter::once(s.start).chain(s.segs.iter().map(|g| g.to())))
+            .fold(1.0e-30f32, |m, p| m.max(p.x.abs()).max(p.y.abs()));
+        let tol = if scale > 100.0 || scale < 1.0 { cfg.tolerance * scale / 10.0 } else { cfg.tolerance };
+        let attrs: Vec<Vec<f32>> = (0..path.num_endpoints()).map(|_| (0..nattr).map(|_| rng.range(-64, 64) as f32 * 0.25).collect()).collect();
+        let mut args = Out::new();
+        args.u(if cfg.rule == lyon_tessellation::FillRule::EvenOdd { 0 } else { 1 });
+        args.u(if cfg.orientation == lyon_tessellation::Orientation::Vertical { 0 } else { 1 });
+        args.f(tol);
+        args.t(CENTRY_NAMES[entry]);
+        args.b(handle_ix);
+        args.u(nattr as u64);
+        args.u(path.subs.iter().map(|s| 2 + s.segs.len()).sum::<usize>() as u64);
+        let mut k = 0usize;
+        let put_attrs = |args: &mut Out, k: &mut usize| {
+            for a in &attrs[*k] {
+                args.f(*a);
+            }
+            *k += 1;
+        };
+        for s in &path.subs {
+            args.t("B").p(s.start);
+            put_attrs(&mut args, &mut k);
+            for g in &s.segs {
+                match g {
+                    CSeg::Line(p) => {
+                        args.t("L").p(*p);
+                    }
+                    CSeg::Quad(c, p) => {
+                        args.t("Q").p(*c).p(*p);
+                    }
+                    CSeg::Cubic(c1, c2, p) => {
+                        args.t("C").p(*c1).p(*c2).p(*p);
+                    }
+                }
+                put_attrs(&mut args, &mut k);
+            }
+            args.t("E").b(s.closed);
+        }
+        let tag = format!(
+            "sweepc {} {} a{} {} curves={}",
+            path.kind,
+            CENTRY_NAMES[entry],
+            nattr,
+            if handle_ix { "ix" } else { "noix" },
+            path.num_curves().min(12)
+        );
+        (args, tag, move || {
+            let opts = lyon_tessellation::FillOptions::tolerance(tol)
+                .with_fill_rule(cfg.rule)
+                .with_sweep_orientation(cfg.orientation)
+                .with_intersections(handle_ix);
+            let has_store = match entry {
+                0 | 2 => false,
+                3 => true,
+                _ => nattr > 0,
+            };
+            let mut tess = FillTessellator::new();
+            let mut log = SweepLogC::default();
+            let res = vh::guarded(|| run_fill_curved(&mut tess, &path, &attrs, nattr, entry, &opts, &mut log));
+            let mut o = Out::new();
+            let mut orc = Oracle::new();
+            let res = match res {
+                Some(r) => r,
+                None => {
+                    o.t("panic");
+                    if handle_ix {
+                        orc.check(false, "sweepc/no-panic", "generic", || "FillTessellator panicked on a finite curved path".into());
+                    } else {
+                        orc.skip("noix-precondition-violated");
+                    }
+                    return CaseOut { imp: o, orcl: orc.verdict };
+                }
+            };
+            match &res {
+                Ok(()) => {
+                    o.t("ok");
+                }
+                Err(e) => {
+                    o.t("err").t(&e.replace(' ', "_"));
+                }
+            }
+            let mut nv = 0u32;
+            for e in &log.ems {
+                match e {
+                    EmitC::V(p, recs, at) => {
+                        nv += 1;
+                        o.t("v").p(*p).u(recs.len() as u64);
+                        for r in recs {
+                            o.t(if r.is_edge { "e" } else { "p" }).p(r.position);
+                            if r.is_edge {
+                                o.p(r.to);
+                            }
+                            o.f(r.range.start).f(r.range.end).i(r.winding as i64).u(r.from_id.0 as u64).u(r.to_id.0 as u64);
+                        }
+                        orc.check(at.len() == if has_store { nattr } else { 0 }, "sweepc/attr-count", "generic", || {
+                            format!("{} attributes, expected {}", at.len(), if has_store { nattr } else { 0 })
+                        });
+                        if has_store && nattr > 0 {
+                            o.t("a");
+                            for x in at {
+                                o.f(*x);
+                            }
+                        }
+                    }
+                    EmitC::T(a, b, c) => {
+                        o.t("t").u(*a as u64).u(*b as u64).u(*c as u64);
+                        orc.check(*a < nv && *b < nv && *c < nv, "sweepc/index-valid", "generic", || "triangle uses a vertex not yet emitted".into());
+                    }
+                }
+            }
+            CaseOut { imp: o, orcl: orc.verdict }
+        })
+    });
+}
+
 fn main() {
     let mut ctx = Ctx::from_args("C01");
     let n = ctx.n(4000, 100000);
@@ -354,7 +1150,17 @@ fn main() {
     // the sweep model tie (ids after the chk_fill cases, so those keep their ids)
     let n = ctx.n(1500, 50000);
     for _ in 0..n {
-        sweep_case(&mut ctx, 24);
+        sweep_case(&mut ctx, 24, false);
+    }
+    // the same tie on curved input (ids after the sweep cases)
+    let n = ctx.n(1500, 50000);
+    for _ in 0..n {
+        sweepc_case(&mut ctx);
+    }
+    // directed inputs for the rarely taken branches of the sweep (polygonal, family `sweep:32`)
+    let n = ctx.n(1000, 50000);
+    for _ in 0..n {
+        sweep_case(&mut ctx, 24, true);
     }
     ctx.finish();
 }
